@@ -225,7 +225,7 @@ class Findings(dict):
             self[key] = [1, h, script, detail]
         else:
             e[0] += 1
-            e[1] ^= h
+            e[1] = (e[1] + h) % (1 << 48)
             if script < e[2]:
                 e[2], e[3] = script, detail
 
@@ -236,7 +236,7 @@ class Findings(dict):
                 self[k] = list(e)
             else:
                 m[0] += e[0]
-                m[1] ^= e[1]
+                m[1] = (m[1] + e[1]) % (1 << 48)
                 if e[2] < m[2]:
                     m[2], m[3] = e[2], e[3]
 
@@ -790,3 +790,67 @@ def _edits_after(tokens, h, rng, n):
             t[i], t[i + 1] = t[i + 1], t[i]
         out.append((kind, i, t))
     return out
+
+
+QUOTING_VALUES = [b'"x"', b'"a\\"b"', b'"a\\\\"', b'"end\\""', b'"\\"start"', b'"a,b"', b'"[x]"', b'"multi\nline"', b'"caf\xc3\xa9"', b'""',
+                  b'"a\\b"', b'" lead"', b'"\\\\\\""', b'"semi;colon"', b'"{brace}"', b'"#hash"', b'"/*c*/"', b'"a", "b"'[:3]]
+QUOTING_TEMPLATES = [b'require "fileinto"; fileinto %s;', b'if header :is [%s, "z"] [%s] { keep; }', b'if header :contains %s %s { stop; }',
+                     b'require "vacation"; vacation :subject %s :addresses [%s] %s;', b'redirect %s;', b'require "reject"; reject %s;',
+                     b'if exists [%s] { discard; }', b'if anyof (exists %s, not header :matches %s [%s, %s]) { keep; }',
+                     b'require "reject"; reject text:\nline one\n%s\n.\n;']
+
+
+def bounded_roundtrip(pid, tier, seed):
+    """print / re-parse / fixed point on accepted scripts: generated scripts x styles, quoting edge-case values, and the
+    accepted token sequences of the exhaustive enumeration"""
+    from bounded import sieve_gen as g
+    evals = 0
+    distinct = set()
+    findings = Findings()
+    samples = []
+
+    def one(data):
+        nonlocal evals
+        r = real_parse(data)
+        if r["verdict"] is not True:
+            return
+        evals += 1
+        distinct.add(data)
+        probs = roundtrip_problems(data, r)
+        for cls, detail in probs:
+            if b"text:" in data:
+                cls += "+multiline"
+            findings.note((pid, cls), data.decode("latin-1"), detail)
+        if not probs and len(samples) < 3 and len(data) < 90 and b"\\" in data:
+            samples.append({"script": data.decode("latin-1"), "verdict": "re-parses to an equal tree; printing is a fixed point"})
+
+    for toks in g.scripts(seed or 1):
+        for style in ((0, 2, 5) if tier == "quick" else range(12)):
+            one(g.render(toks, style))
+    for v in QUOTING_VALUES:
+        for tmpl in QUOTING_TEMPLATES:
+            one(tmpl.replace(b"%s", v))
+    # accepted sequences of the token enumeration (depth 4 quick / 5 thorough), sequentially and with a budget
+    t0 = time.time()
+    budget = 40 if tier == "quick" else 600
+
+    def visit(seq, maxlen):
+        if time.time() - t0 > budget:
+            return
+        data = b" ".join(seq)
+        r = real_parse(data)
+        if r["verdict"] is True and seq:
+            one(data)
+        if len(seq) >= maxlen:
+            return
+        if r["verdict"] is False and "end of script reached" not in (r.get("error") or ""):
+            return
+        for t in VOCAB:
+            visit(seq + [t], maxlen)
+
+    visit([], 4 if tier == "quick" else 5)
+    return {"name": "print-parse-round-trip", "bound": "accepted scripts among: generated scripts x rendering styles, %d quoting edge-case "
+            "values x %d templates, token sequences up to %d tokens: %d accepted scripts round-tripped" %
+            (len(QUOTING_VALUES), len(QUOTING_TEMPLATES), 4 if tier == "quick" else 5, evals), "rule": "distinct = script text",
+            "evaluations": evals, "distinct": len(distinct), "samples": samples, "exhaustive": False,
+            "violations": findings.violations(pid, "roundtrip", (pid,))}
